@@ -3,6 +3,7 @@ package buffer
 import (
 	"encoding/binary"
 	"fmt"
+	"io"
 	"unsafe"
 )
 
@@ -133,6 +134,10 @@ func ReadUint16Slice(r Reader, c []uint16) (n int64, err error) {
 
 	buffered := len(slice) >> 1
 
+	if buffered == 0 {
+		return n, io.ErrUnexpectedEOF
+	}
+
 	// If the slice to write on is equal or smaller than the amount peaked
 	if N := len(c); N <= buffered {
 
@@ -208,6 +213,10 @@ func ReadUint32Slice(r Reader, c []uint32) (n int64, err error) {
 
 	buffered := len(slice) >> 2
 
+	if buffered == 0 {
+		return n, io.ErrUnexpectedEOF
+	}
+
 	// If the slice to write on is equal or smaller than the amount peaked
 	if N := len(c); N <= buffered {
 
@@ -282,6 +291,10 @@ func ReadUint64Slice(r Reader, c []uint64) (n int64, err error) {
 	}
 
 	buffered := len(slice) >> 3
+
+	if buffered == 0 {
+		return n, io.ErrUnexpectedEOF
+	}
 
 	// If the slice to write on is equal or smaller than the amount peaked
 	if N := len(c); N <= buffered {
